@@ -12,10 +12,43 @@ package meta_leaseset
 //@ import "time"
 //@ import "github.com/go-i2p/common/destination"
 //@ import "github.com/go-i2p/common/key_certificate"
+//@ import "github.com/go-i2p/common/keys_and_cert"
+//@ import "github.com/go-i2p/common/offline_signature"
+//@ import sig "github.com/go-i2p/common/signature"
 
 //@ loop parseEntries 0: unroll 16
 //@ loop MetaLeaseSet.Bytes 0: concrete 16
 //@ loop MetaLeaseSet.FindEntriesByType 0: concrete 16
+
+// ---- C05: Verify() == nil means the signature is valid under the right key
+// over 0x07 || serialisation-without-signature, and (offline keys) the
+// transient key was authorised by the destination's key.
+//@ spec func MLSInv(mls *MetaLeaseSet) bool {
+//@   return mls != nil && (mls.destination.KeysAndCert == nil || keys_and_cert.KacInv(mls.destination.KeysAndCert)) &&
+//@     (mls.offlineSignature == nil || offline_signature.OffInv(mls.offlineSignature))
+//@ }
+
+//@ contract (mls *MetaLeaseSet) Bytes() (b []byte, err error)
+//@   pure
+//@   requires MLSInv(mls)
+//@   ensures fresh(b)
+//@   modifies nothing
+
+//@ spec func MLSOffline(mls *MetaLeaseSet) bool { return mls.flags&META_LEASESET_FLAG_OFFLINE_KEYS != 0 && mls.offlineSignature != nil }
+//@ spec func MLSSigKey(mls *MetaLeaseSet) []byte {
+//@   if MLSOffline(mls) { return offline_signature.OffKey(mls.offlineSignature) }
+//@   return mls.destination.KeysAndCert.SigningPublic.Bytes()
+//@ }
+//@ spec func MLSSigned(mls *MetaLeaseSet) []byte {
+//@   b, _ := mls.Bytes()
+//@   return cat([]byte{META_LEASESET_DBSTORE_TYPE}, sub(b, 0, len(b)-len(sig.SigData(mls.signature))))
+//@ }
+
+//@ contract (mls *MetaLeaseSet) Verify() (err error)
+//@   requires MLSInv(mls)
+//@   ensures @C05 err == nil ==> sigvalid(MLSSigKey(mls), MLSSigned(mls), sig.SigData(mls.signature))
+//@   ensures @C05 err == nil && MLSOffline(mls) ==> sigvalid(mls.destination.KeysAndCert.SigningPublic.Bytes(), offline_signature.OffSignedData(mls.offlineSignature), offline_signature.OffSig(mls.offlineSignature))
+//@   modifies nothing
 
 // C09: the Destination inside an accepted MetaLeaseSet obeys the key-type policy.
 //@ lemma C09_ReadMetaLeaseSet(data []byte) {
